@@ -799,6 +799,25 @@ func (self *Analyzer) assignErr(operator pAst.AssignOperator, typ ast.Type, span
 // Call expression
 //
 
+// Whether a value of this type is, or holds somewhere inside, a function value.
+func typeContainsFunction(typ ast.Type) bool {
+	switch typ.Kind() {
+	case ast.FnTypeKind:
+		return true
+	case ast.ListTypeKind:
+		return typeContainsFunction(typ.(ast.ListType).Inner)
+	case ast.OptionTypeKind:
+		return typeContainsFunction(typ.(ast.OptionType).Inner)
+	case ast.ObjectTypeKind:
+		for _, field := range typ.(ast.ObjectType).ObjFields {
+			if typeContainsFunction(field.Type) {
+				return true
+			}
+		}
+	}
+	return false
+}
+
 func (self *Analyzer) callArgs(fnType ast.FunctionType, args pAst.CallArgs, baseIsSpawn bool) ast.AnalyzedCallArgs {
 	arguments := make([]ast.AnalyzedCallArgument, 0)
 
@@ -870,7 +889,7 @@ func (self *Analyzer) callArgs(fnType ast.FunctionType, args pAst.CallArgs, base
 				// Sending closures across threads is UB, prevent this.
 				// When sending a closure which captures values to a new thread, the old captured values are not deepcopie'd.
 				// Therefore, sending these closures across threads will cause weird memory bugs which must not occur in a Smarthome system.
-				if baseIsSpawn && argExpr.Type().Kind() == ast.FnTypeKind {
+				if baseIsSpawn && typeContainsFunction(argExpr.Type()) {
 					self.error(
 						"Sending closures across threads is undefined behaviour.",
 						[]string{fmt.Sprintf("It is not possible to use a value of type `%s` as an argument to a `spawn` invocation.", argExpr.Type())},
@@ -934,7 +953,7 @@ func (self *Analyzer) callArgs(fnType ast.FunctionType, args pAst.CallArgs, base
 				// Sending closures across threads is UB, prevent this.
 				// When sending a closure which captures values to a new thread, the old captured values are not deepcopie'd.
 				// Therefore, sending these closures across threads will cause weird memory bugs which must not occur in a Smarthome system.
-				if baseIsSpawn && argExpr.Type().Kind() == ast.FnTypeKind {
+				if baseIsSpawn && typeContainsFunction(argExpr.Type()) {
 					self.error(
 						"Sending closures across threads is undefined behaviour.",
 						[]string{fmt.Sprintf("It is not possible to use a value of type `%s` as an argument to a `spawn` invocation.", argExpr.Type())},
